@@ -3,6 +3,7 @@ C02 — operations run in the order their scheduling calls were made.
 -/
 import DesyncModel.Spec
 import DesyncModel.Tables
+import DesyncModel.FactFifo
 import DesyncModel.Lemmas
 import DesyncModel.Setters
 
